@@ -302,6 +302,19 @@ def run_mesh(case, ctx, g, ru, Links):
         dy = (b[1] - b[2]) - (a[1] - a[2])
         check_mesh_pair(ctx, g, ru, Links, a, b, dx, dy, hexdist(dx, dy),
                         walk=False)
+    # coordinates far beyond what a double holds exactly
+    for _ in range(max(4, case["far"] // 4)):
+        big = rng.choice([1 << 53, 1 << 60, 10 ** 17, 1 << 80])
+        a = tuple(rng.randint(-3, 3) + rng.choice([0, big, -big])
+                  for _ in range(3))
+        b = tuple(rng.randint(-3, 3) + rng.choice([0, big + 1, -big - 1,
+                                                   3 * big + 1])
+                  for _ in range(3))
+        dx = (b[0] - b[2]) - (a[0] - a[2])
+        dy = (b[1] - b[2]) - (a[1] - a[2])
+        ctx.hit("mesh_huge_coordinates")
+        check_mesh_pair(ctx, g, ru, Links, a, b, dx, dy, hexdist(dx, dy),
+                        walk=False)
     ctx.mark_nontrivial()
     ctx.note(dict(offsets=len(pts), far_pairs=case["far"]))
     return "ok"
